@@ -1,3 +1,4 @@
+import Sparrow.Proofs.MetricsEquiv
 import Sparrow.Proofs.MonoGlueEquiv
 import Sparrow.Proofs.SourceGlueEquiv
 import Sparrow.Proofs.DirectivityLemmas
@@ -102,3 +103,35 @@ theorem calculateDirectSound_eq (r : Nat → ℝ) (rc : Nat → Nat → ℝ) (B 
   Sparrow.calculateDirectSound_eq r rc B att g freq c dt k b hb
 
 end Sparrow.Props.C20.MonoGlue
+
+namespace Sparrow.Props.C20.Metrics
+open Sparrow Sparrow.Generated.Metrics
+
+
+theorem getMetrics_eq {α : Type} [Add α] [Sub α] [Mul α] [Div α] [Neg α] [Transc α] [NatCast α]
+    (pos view up target : Nat → α) :
+    getMetrics pos view up target =
+      ((metricsAngles ⟨pos 0, pos 1, pos 2⟩ ⟨view 0, view 1, view 2⟩ ⟨up 0, up 1, up 2⟩ ⟨target 0, target 1, target 2⟩).1
+          / Transc.pi * ((180 : Nat) : α),
+       (metricsAngles ⟨pos 0, pos 1, pos 2⟩ ⟨view 0, view 1, view 2⟩ ⟨up 0, up 1, up 2⟩ ⟨target 0, target 1, target 2⟩).2
+          / Transc.pi * ((180 : Nat) : α)) :=
+  Sparrow.getMetrics_eq pos view up target
+
+/-- **`SoundSource.get_directivity` as recognised = the model's `directivityFactor`**: for an orthonormal source frame and a
+    target not on the source's up axis, with pyfar's nearest-point query the nearest measured direction: the factor of target
+    `p` is the table entry of the measured direction nearest to the direction of the target IN THE SOURCE'S OWN FRAME, at the
+    measured frequency nearest to the requested one. -/
+theorem soundObjectGetDirectivity_eq (nDir nFreq : Nat) (dirs : Nat → Vec3 ℝ) (freqs : Nat → ℝ) (table : Nat → Nat → ℝ)
+    (pos view up : Nat → ℝ) (targets : Nat → Nat → ℝ) (f : ℝ) (p : Nat)
+    (h : Orthonormal (⟨view 0, view 1, view 2⟩ : Vec3 ℝ) ⟨up 0, up 1, up 2⟩)
+    (hgen : (metricsLocal (⟨pos 0, pos 1, pos 2⟩ : Vec3 ℝ) ⟨view 0, view 1, view 2⟩ ⟨up 0, up 1, up 2⟩
+              ⟨targets p 0, targets p 1, targets p 2⟩).x ^ 2 +
+            (metricsLocal (⟨pos 0, pos 1, pos 2⟩ : Vec3 ℝ) ⟨view 0, view 1, view 2⟩ ⟨up 0, up 1, up 2⟩
+              ⟨targets p 0, targets p 1, targets p 2⟩).z ^ 2 ≠ 0) :
+    soundObjectGetDirectivity Real.cos Real.sin (fun v => nearest dirs nDir ⟨v.1, v.2.1, v.2.2⟩) table nFreq freqs
+        pos view up targets f p =
+      directivityFactor nDir nFreq dirs freqs table ⟨pos 0, pos 1, pos 2⟩ ⟨view 0, view 1, view 2⟩ ⟨up 0, up 1, up 2⟩
+        ⟨targets p 0, targets p 1, targets p 2⟩ f :=
+  Sparrow.soundObjectGetDirectivity_eq nDir nFreq dirs freqs table pos view up targets f p h hgen
+
+end Sparrow.Props.C20.Metrics
